@@ -1,7 +1,7 @@
 import SaModel.Lemmas.C09Type
 import SaModel.Lemmas.C16Dsl
 /-
-C16, schema side: the nesting limit of the data-type mini language.  Before the fix c368604 `Term::from_str` descended
+C16, schema side: the nesting limit of the data-type mini language.  Before the fix d2b4b5b `Term::from_str` descended
 without a bound: `SerdeArrowSchema::from_value` on a `data_type` text nested some 50 000 levels deep exhausted the stack
 (abort).  After it: every term the parser returns is nested at most `MAX_TERM_DEPTH` levels (`fromStr_depth_le`) and
 the texts `A(A(…I8…))` with more levels are refused with an error (`fromStr_nest`), whatever their size.
